@@ -38,6 +38,7 @@ Four parts:
           sites, a second parse whose first unit scope is interrupted by a BaseException during registration
 """
 import copy
+import gc
 import itertools
 
 from ..common import Shard, failure, outcome, HarnessError
@@ -75,6 +76,7 @@ MAXFAULT = 2
 
 # ----------------------------------------------------------------------------------------------- alphabet: unit sets
 _DIM = [3, 2, -1, 0, 0, 1, 0, 0]
+_DIM2 = [0, 0, 1, 0, 0, 0, 0, 0]
 _CLS = {}
 
 
@@ -173,6 +175,15 @@ def _build(name):
         return {"Xj": _d(definition=c["CT1"]), "Xv": _d(), "Xw": _d(definition=c["CT2"])}
     if name == "LM":
         return {"[mas]": _d()}
+    # ---- the same symbols with OTHER definitions (used by the redef part only)
+    if name == "A2":
+        return {"Xa": _d(magnitude=7, dimensions=list(_DIM2))}
+    if name == "BC2":
+        return {"Xb": _d(magnitude=5, prefixes=["k", "M"]), "Xc": _d(magnitude=2, dimensions=list(_DIM2), prefixes=True)}
+    if name == "Q2":
+        return {"Xq": Quantity(3, "m/s"), "Xr": _d(magnitude=11, name="my unit")}
+    if name == "T2":
+        return {"Xi": _d(magnitude=4, dimensions=list(_DIM2), definition=c["CT1"])}
     # ---- registrations that fail (in every context)
     if name == "D1":
         return {"m": _d(), "Xd": _d()}
@@ -211,8 +222,23 @@ SYMS = dict(A=["Xa"], AB=["Xa", "Xb"], BC=["Xb", "Xc"], CA=["Xc", "Xa"], Q=["Xq"
             M2=["Xd", "Xe"], MT=["Xe"], ZZ=["Xd"], TD=["Xi", "m"], QD=["Xq", "s"])
 for _n in BAD_INT:
     SYMS[_n] = _ISYM[:int(_n[1]) - (1 if _n[0] == "I" else 0)]
+SYMS.update(A2=SYMS["A"], BC2=SYMS["BC"], Q2=SYMS["Q"], T2=SYMS["T"])
 # spellings that must work inside the scope (symbols + admissible prefixed forms)
-PROBE = dict(SYMS, BC=["Xb", "kXb", "MXb", "Xc", "mXc", "GXc"])
+PROBE = dict(SYMS, BC=["Xb", "kXb", "MXb", "Xc", "mXc", "GXc"], BC2=["Xb", "kXb", "MXb", "Xc", "mXc", "GXc"])
+# redef part: families of sets that define the same symbols differently, and what each spelling must MEAN inside the
+# scope: spelling -> (factor to base units, dimension vector); prefixed spellings carry the prefix factor
+REDEF = dict(A=("A", "A2"), BC=("BC", "BC2"), Q=("Q", "Q2"), T=("T", "T2"))
+MEANING = dict(
+    A={"Xa": (3, _DIM)}, A2={"Xa": (7, _DIM2)},
+    BC={"Xb": (3, _DIM), "kXb": (3e3, _DIM), "MXb": (3e6, _DIM), "Xc": (3, _DIM), "mXc": (3e-3, _DIM), "GXc": (3e9, _DIM)},
+    BC2={"Xb": (5, _DIM), "kXb": (5e3, _DIM), "MXb": (5e6, _DIM), "Xc": (2, _DIM2), "mXc": (2e-3, _DIM2),
+         "GXc": (2e9, _DIM2)},
+    Q={"Xq": (0.02, [1, -2, 0, 0, 0, 0, 0, 0]), "Xr": (3, _DIM)},
+    Q2={"Xq": (3.0, [1, 0, -1, 0, 0, 0, 0, 0]), "Xr": (11, _DIM)},
+    T={"Xi": (3, _DIM)}, T2={"Xi": (4, _DIM2)},
+)
+REDEF_ALT = ("A2", "BC2", "Q2", "T2")
+PREFIXED = {"kXb": ("Xb", 1e3), "MXb": ("Xb", 1e6), "mXc": ("Xc", 1e-3), "GXc": ("Xc", 1e9)}
 # features of the input, used as tags
 FAULT = dict(D1="dup-table-symbol-at-1", D2="dup-table-symbol-at-2", D3="dup-table-symbol-at-3",
              KM="clash-with-prefixed-symbol", PA="prefixed-custom-clashes-with-symbol", M1="malformed-at-1",
@@ -268,6 +294,8 @@ def _step(stack, op):
         return stack[:len(stack) - op[1]]
     if k in ("fail", "dip"):
         return stack[:len(stack) - op[2]] if _predict_fail(stack, op) else stack
+    if k == "drop":
+        return stack
     raise HarnessError("bad op %r" % (op,))
 
 
@@ -290,6 +318,8 @@ def _enabled(stack, alpha):
         if alpha.get("interrupt"):
             for k in range(1, d + 1):
                 ops.append(("interrupt", k))
+    if alpha.get("drop"):
+        ops.append(("drop",))
     for t in alpha["dip"]:
         if t == "DFL":
             for k in ks:
@@ -302,8 +332,8 @@ def _enabled(stack, alpha):
     return ops
 
 
-A_FULL = dict(good=GOOD, bad=BAD + INT_REPR, styles=["with", "explicit"], dip=DIP_OPS, allk=False)
-A_GRAPH = dict(A_FULL, bad=BAD + BAD_INT, allk=True, interrupt=True)
+A_FULL = dict(good=GOOD, bad=BAD + INT_REPR, styles=["with", "explicit"], dip=DIP_OPS, allk=False, drop=True)
+A_GRAPH = dict(A_FULL, bad=BAD + BAD_INT, allk=True, interrupt=True, drop=False)
 A_CORE = dict(good=CORE_GOOD, bad=CORE_BAD, styles=["with"], dip=["DFL"], allk=False)
 
 
@@ -317,6 +347,8 @@ def _nfaults(hist):
 
 def _owner(hist, tier):
     """which part counts this history as a distinct case (parts overlap; each history is counted once)"""
+    if any(op[0] == "open" and op[1] in REDEF_ALT for op in hist):
+        return "redef"
     nf = _nfaults(hist)
     if nf <= MAXFAULT and len(hist) <= LF[tier] and _valid(hist, A_FULL):
         return "hist"
@@ -447,6 +479,9 @@ def _behaviour(diff):
 
 def init_worker():
     global _PRISTINE, _SPELL
+    # object releases must happen at the points the scope programs choose, not when the cyclic collector happens to
+    # run: the collector is switched off and run at fixed points (between cases, and at ["drop"])
+    gc.disable()
     _classes()
     iso.tables_snapshot()
     from scinumtools.units.settings import UNIT_STANDARD, UNIT_PREFIXES
@@ -495,10 +530,47 @@ def _usable(sym):
     return outcome(Quantity, 1, sym)[0] == "ok"
 
 
+def _close(a, b):
+    return abs(a - b) <= 1e-12 * max(abs(a), abs(b))
+
+
+def _means(sym, want):
+    """None if spelling `sym` currently means `want` = (factor to base units, dimension vector), else what it means"""
+    from scinumtools.units import Quantity
+
+    def resolve():
+        q = Quantity(1, sym)
+        return float(q.baseunits.magnitude), [float(x) for x in q.baseunits.dimensions.value()]
+    o = outcome(resolve)
+    if o[0] == "err":
+        return dict(raises=list(o[1:]))
+    mag, dims = o[1]
+    if not _close(mag, float(want[0])) or dims != [float(x) for x in want[1]]:
+        return dict(factor=mag, dimensions=dims)
+    if sym in PREFIXED:
+        base, pf = PREFIXED[sym]
+        o = outcome(lambda: float(Quantity(1, sym).value(base)))
+        if o[0] == "err":
+            return dict(conversion_to=base, raises=list(o[1:]))
+        if not _close(o[1], pf):
+            return dict(conversion_to=base, value=o[1])
+    return None
+
+
 # ----------------------------------------------------------------------------------------------- the interpreter
 class _Unwind(Exception):
     def __init__(self, k, idx):
         self.k, self.idx = k, idx
+
+
+def _strip(e):
+    """Drop the tracebacks of a caught exception chain.  A stored exception would keep the frames of the library and
+    of this interpreter - and the environment objects referenced by them - alive in reference cycles; the scope
+    programs control the lifetime of every environment object explicitly (see Run.vars)."""
+    seen = 0
+    while e is not None and seen < 20:
+        e.__traceback__ = None
+        e, seen = (e.__cause__ or e.__context__), seen + 1
 
 
 class _UnwindB(BaseException):
@@ -526,7 +598,11 @@ def _run_dip(text, env=None, keep=None):
 class Run:
     """executes one history on the real tables; self.fail = first violation (failure record) or None"""
 
-    def __init__(self, hist, check_from=0):
+    def __init__(self, hist, check_from=0, values=False):
+        # values: also check what every custom spelling MEANS inside its scope (redef part only: a case that checks
+        # meanings must itself contain both definitions of a symbol, otherwise a stale look-up cache left by an
+        # earlier case of the same process would make the verdict depend on the process history)
+        self.values = values
         # check_from: index of the first operation whose usability probes / state digests are evaluated (the table
         # invariant is evaluated on every operation); explorers whose case sets are prefix-closed pass len(hist)-1
         self.check_from = check_from
@@ -539,10 +615,20 @@ class Run:
         self.events = []         # outcome label of each completed operation
         self.dicts = {}          # the same definition dict is re-used when a set is opened again
         self.max_depth = 0
+        # object lifetimes.  `with UnitEnvironment(..)` : the object is released right after __exit__.
+        # explicit style: the program text is `env<depth> = UnitEnvironment(..); ...; env<depth>.close()`, one
+        # variable per nesting depth, so a closed object stays alive until that variable is re-bound (the old
+        # object is released only AFTER the new environment has registered), until a ["drop"] operation deletes
+        # the variables, or until the end of the history.  gc is disabled (init_worker); with the tracebacks
+        # stripped every release happens by reference counting at exactly these points.
+        self.vars = {}
 
     # -- helpers
     def case(self):
-        return dict(route="py", history=[list(op) for op in self.h[:self.i]])
+        # redef part: always the whole history (it contains both definitions of the symbol, so the replay fails in
+        # some phase whatever a defective look-up cache of the replaying process happens to hold)
+        upto = len(self.h) if self.values else self.i
+        return dict(route="py", history=[list(op) for op in self.h[:upto]])
 
     def bad(self, sub, expected, observed, tags, behaviour):
         if self.fail is None:
@@ -572,6 +658,16 @@ class Run:
             return
         for n, (s, st, e) in enumerate(self.stack):
             probes = PROBE[s] if full_top and n == len(self.stack) - 1 else SYMS[s]
+            if self.values and s in MEANING:
+                for p, want in MEANING[s].items():
+                    got = _means(p, want)
+                    if got is not None:
+                        self.bad("meaning-inside", "inside the scope of %s %r has factor %r and dimensions %r"
+                                 % (s, p, want[0], list(want[1])), got,
+                                 tags + ["set:" + s, "prefixed" if p in PREFIXED else "plain", "redefined-symbol"],
+                                 "raises" if "raises" in got else "stale-or-wrong-definition")
+                        return
+                continue
             for p in probes:
                 if not _usable(p):
                     self.bad("usable-inside", "Quantity(1,%r) works inside the scope of %s" % (p, s), "raises",
@@ -598,11 +694,14 @@ class Run:
         try:
             try:
                 self.body(0)
-            except _End:
-                pass
-            except (_Unwind, _UnwindB):
+            except _End as e:
+                _strip(e)
+            except (_Unwind, _UnwindB) as e:
+                _strip(e)
                 if self.fail is None and not self.abort:
                     raise HarnessError("history unwinds below depth 0: %r" % (self.h,))
+            self.vars.clear()      # end of the program: every variable goes out of scope
+            self.dicts.clear()
             if self.fail is None:
                 d = _diff(_PRISTINE)
                 if d:
@@ -649,6 +748,8 @@ class Run:
                 raise _UnwindB(op[1], idx)
             elif k in ("open", "fail"):
                 self.scope(op, idx, depth)
+            elif k == "drop":
+                self.drop(idx, depth)
             elif k == "dip":
                 self.dip(op, idx, depth)
             else:
@@ -663,9 +764,11 @@ class Run:
         constructed = False
         ended = None
         exc = None
+        env = None
         try:
             if kind == "open" and arg == "explicit":
                 env = UnitEnvironment(units)
+                self.vars[depth] = env      # re-binding: the previous object of this variable is released now
                 constructed = True
                 try:
                     self.opened(sname, arg, env, predicted_fail, idx, depth)
@@ -687,8 +790,11 @@ class Run:
             if not _injected(e):
                 raise
             exc = e
+        if exc is not None:
+            _strip(exc)         # ... which also releases the object of a failed construction, as `except:` would
         if constructed:
             self.stack.pop()
+        env = None              # with-style: the temporary is gone; explicit style: self.vars still holds it
         lib_exc = exc is not None and not isinstance(exc, (_End, _Unwind, _UnwindB))
         tags = self.ctx_tags(depth) + ["set:" + sname]
         if sname in FAULT:
@@ -736,6 +842,21 @@ class Run:
             self.done(idx, "construction-interrupted" if _injected(exc) else "construction-failed")
             return
         self.done(idx, "exit-raised")
+
+    def drop(self, idx, depth):
+        """`del` of every environment variable + gc.collect(): closed environment objects are released here"""
+        entry = _snap()
+        n = len([1 for d_, e in self.vars.items() if all(e is not x[2] for x in self.stack)])
+        self.vars.clear()
+        gc.collect(0)       # everything allocated since the last full collection is still in generation 0
+        tags = self.ctx_tags(depth) + ["drop", "closed-objects-released=%d" % min(n, 2)]
+        d = _diff(entry)
+        if d:
+            self.bad("object-release", "releasing closed environment objects leaves the tables untouched", d, tags,
+                     _behaviour(d))
+        if self.fail is None:
+            self.check_open_usable(tags)
+        self.done(idx, "dropped-%d" % min(n, 2))
 
     def opened(self, sname, style, env, predicted_fail, idx, depth):
         self.stack.append([sname, style, env])
@@ -788,10 +909,16 @@ def _msg(o):
     return "%s:%s" % (o[1], o[2].split(":")[0].strip("('\" ")[:60])
 
 
+def _between_cases(sh):
+    if sh.evaluations % 200 == 0:
+        gc.collect()
+
+
 def _exec(hist, sh, tier=None, part=None, seen=None):
+    _between_cases(sh)
     # graph / hist / core enumerate prefix-closed sets of histories: the probes of earlier operations were evaluated
     # when the shorter history was executed
-    r = Run(hist, check_from=0 if part == "cycles" else len(hist) - 1)
+    r = Run(hist, check_from=0 if part in ("cycles", "redef") else len(hist) - 1, values=part == "redef")
     bad = r.go()
     sh.evaluations += 1
     sh.traces += 1
@@ -812,7 +939,7 @@ def _exec(hist, sh, tier=None, part=None, seen=None):
         key = repr(bad["case"])
         own = _owner([tuple(op) for op in bad["case"]["history"]], tier) if tier is not None else part
         full = len(bad["case"]["history"]) == len(hist)
-        if ((own == part and full) or own == "cycles") and (seen is None or key not in seen):
+        if ((own == part and full) or own in ("cycles", "redef")) and (seen is None or key not in seen):
             if seen is not None:
                 seen.add(key)
             _report(sh, bad)
@@ -1055,6 +1182,169 @@ def _dipint_case(site, exc, ctx):
     return what, bad
 
 
+# ----------------------------------------------------------------------------------------------- overlapping scopes
+def _overlap_orders(n):
+    """all event sequences of n explicit environments: ("o", i) in index order, ("c", i) somewhere after ("o", i)"""
+    out = []
+
+    def rec(seq, opened, closed):
+        if len(closed) == n:
+            out.append(tuple(seq))
+            return
+        if opened < n:
+            rec(seq + [("o", opened)], opened + 1, closed)
+        for i in range(opened):
+            if i not in closed:
+                rec(seq + [("c", i)], opened, closed | {i})
+    rec([], 0, frozenset())
+    return out
+
+
+def _is_lifo(events):
+    st = []
+    for k, i in events:
+        if k == "o":
+            st.append(i)
+        elif st.pop() != i:
+            return False
+    return True
+
+
+def _overlap_case(sets, events, ctx):
+    """explicit (non-with) environments opened and closed in any order.  Intermediate states are not judged; once
+    every environment is closed the tables must equal what they were before the first one was opened."""
+    from scinumtools.units import UnitEnvironment
+    if _diff(_PRISTINE):
+        raise HarnessError("tables not pristine at the start of a case: %s" % iso.tables_diff())
+    case = dict(route="overlap", sets=list(sets), events=[list(e) for e in events], ctx=ctx)
+    ncls = sum(1 for s_ in sets if s_ in ("T", "TU"))
+    tags = ["ctx:" + ctx, "lifo" if _is_lifo(events) else "non-lifo", "environments=%d" % len(sets),
+            "sets-with-conversion-class=%d" % ncls]
+    bad, what = None, "all-closed"
+    try:
+        outer = UnitEnvironment(_build("Q")) if ctx == "inQ" else None
+        try:
+            entry = _snap()
+            envs = {}
+            try:
+                for k, i in events:
+                    if k == "o":
+                        envs[i] = UnitEnvironment(_build(sets[i]))
+                    else:
+                        envs[i].close()
+            except Exception as e:
+                # nothing is demanded about closing out of order as such: if the library refuses it, not every
+                # scope has been closed and the end state is not judged
+                _strip(e)
+                what = "raised-" + type(e).__name__
+            envs.clear()
+            if what == "all-closed":
+                d = _diff(entry)
+                if d:
+                    bad = failure("all-closed", case, "tables equal the snapshot taken before the first environment "
+                                  "was opened, once every environment has been closed", d, tags=tags,
+                                  behaviour=_behaviour(d))
+                else:
+                    for s_ in sets:
+                        for p_ in PROBE[s_]:
+                            if bad is None and _usable(p_):
+                                bad = failure("gone-outside", case, "Quantity(1,%r) raises outside the scope" % p_,
+                                              "works", tags=tags, behaviour="custom-unit-survives")
+        finally:
+            if outer is not None:
+                outer.close()
+        if bad is None and what == "all-closed":
+            d = _diff(_PRISTINE)
+            if d:
+                bad = failure("depth0-pristine", case, "tables equal the pristine snapshot at depth 0", d, tags=tags,
+                              behaviour=_behaviour(d))
+    finally:
+        left = _restore()
+    if left and bad is None and what == "all-closed":
+        bad = failure("depth0-pristine", case, "tables equal the pristine snapshot at depth 0", left, tags=tags,
+                      behaviour=_behaviour(left))
+    return what, bad
+
+
+def _overlap_tuples(n):
+    out = []
+    for t in itertools.permutations([g for g in GOOD if g != "Q"], n):
+        syms = [x for s_ in t for x in SYMS[s_]]
+        if len(set(syms)) == len(syms):
+            out.append(t)
+    return out
+
+
+# ----------------------------------------------------------------------------------------------- DIP: redefined units
+# successive DIP texts that define [len] differently; every value below depends on the definition in force
+DIPRE_DEF = dict(UL=("$unit len = 2 cm", 2.0), UL2=("$unit len = 5 m", 500.0))      # text, [len] in cm
+DIPRE_BODY = dict(
+    expr=["e float = (\"1 [len] + 2 cm\") cm"],
+    power=["a float = (\"2 [len] * 1 [len]\") cm2"],
+    modify=["w float = 3 [len]", "w = 8 cm"],
+    logical=["m float = 150 cm", "t bool = (\"{?m} < 1 [len]\")"],
+    all=["e float = (\"1 [len] + 2 cm\") cm", "a float = (\"2 [len] * 1 [len]\") cm2", "w float = 3 [len]", "w = 8 cm",
+         "m float = 150 cm", "t bool = (\"{?m} < 1 [len]\")"],
+)
+DIPRE_SEQ = [("UL", "UL2"), ("UL2", "UL"), ("UL", "UL2", "UL"), ("UL2", "UL", "UL2")]
+
+
+def _dipre_expected(L):
+    return dict(e=L + 2.0, a=2.0 * L * L, w=8.0 / L, t=150.0 < L)
+
+
+def _dipredef_case(seq, body, ctx):
+    from scinumtools.units import UnitEnvironment
+    if _diff(_PRISTINE):
+        raise HarnessError("tables not pristine at the start of a case: %s" % iso.tables_diff())
+    case = dict(route="dipredef", seq=list(seq), body=body, ctx=ctx)
+    tags = ["ctx:" + ctx, "body:" + body, "unit-redefined-in-later-text"]
+    bad, what = None, "ok"
+    try:
+        outer = UnitEnvironment(_build("A")) if ctx == "inA" else None
+        try:
+            for step, dname in enumerate(seq, 1):
+                text, L = DIPRE_DEF[dname]
+                entry = _snap()
+                o = outcome(lambda: _run_dip("\n".join([text] + DIPRE_BODY[body]) + "\n").data())
+                d = _diff(entry)
+                if d:
+                    bad = failure("dip-parse", case, "tables equal the snapshot taken before DIP.parse()", d,
+                                  tags=tags + ["text-%d" % step], behaviour=_behaviour(d))
+                elif o[0] == "err":
+                    bad = failure("dip-usable", case, "DIP text that defines its units before using them parses",
+                                  list(o[1:]), tags=tags + ["text-%d" % step], behaviour="raises:" + _msg(o))
+                else:
+                    exp = _dipre_expected(L)
+                    for k_, v_ in o[1].items():
+                        if bad is None and k_ in exp:
+                            okv = (bool(v_) == exp[k_]) if k_ == "t" else \
+                                abs(float(v_) - exp[k_]) <= 1e-9 * abs(exp[k_])
+                            if not okv:
+                                bad = failure("dip-meaning", case, "text %d ([len] = %s): %s = %r"
+                                              % (step, text.split("=")[1].strip(), k_, exp[k_]),
+                                              "%s = %r" % (k_, v_ if isinstance(v_, bool) else float(v_)),
+                                              tags=tags + ["text-%d" % step, "node:" + k_],
+                                              behaviour="stale-or-wrong-definition")
+                if bad is not None:
+                    what = "violation"
+                    break
+        finally:
+            if outer is not None:
+                outer.close()
+        if bad is None:
+            d = _diff(_PRISTINE)
+            if d:
+                bad = failure("depth0-pristine", case, "tables equal the pristine snapshot at depth 0", d, tags=tags,
+                              behaviour=_behaviour(d))
+    finally:
+        left = _restore()
+    if left and bad is None:
+        bad = failure("depth0-pristine", case, "tables equal the pristine snapshot at depth 0", left, tags=tags,
+                      behaviour=_behaviour(left))
+    return what, bad
+
+
 def _dip_explore(ctx, first, maxlen, sh):
     """BFS over line programs starting with `first`: a program is extended only if it parsed (a failed program is a
     leaf); shorter programs first, so the first record of a failure class is a shortest one"""
@@ -1065,6 +1355,7 @@ def _dip_explore(ctx, first, maxlen, sh):
             splits = [0] if ctx != "split" else list(range(1, len(prefix)))
             ok_any = False
             for sp in splits:
+                _between_cases(sh)
                 res, bad = _dip_case(ctx, prefix, sp)
                 sh.evaluations += 1
                 sh.traces += 1
@@ -1121,6 +1412,11 @@ def plan(tier, seed):
     first, rest = [], []
     # dip route: few, comparatively long shards
     dips = [("dip", (ctx, ln), tier) for ctx in DIP_CTX for ln in LNAMES] + [("dipint", None, tier)]
+    dips += [("dipredef", seq, tier) for seq in DIPRE_SEQ]
+    dips += [("redef", (fam, seq), tier) for fam in REDEF for seq in itertools.product((0, 1), repeat=3)
+             if len(set(seq)) == 2]
+    t3 = _overlap_tuples(3)
+    dips += [("overlap", (2, None), tier)] + [("overlap", (3, a), tier) for a in sorted({t[0] for t in t3})]
     # graph: partition of the state graph by the bottom scopes of the stack
     first.append(("graph", (), tier))
     for a in opens:
@@ -1196,6 +1492,46 @@ def run_shard(desc):
     elif kind == "dip":
         ctx, ln = arg
         _dip_explore(ctx, [ln], LDIP[tier], sh)
+    elif kind == "dipredef":
+        for body in DIPRE_BODY:
+            for ctx in ("top", "inA"):
+                _between_cases(sh)
+                what, bad = _dipredef_case(arg, body, ctx)
+                sh.evaluations += 1
+                sh.traces += 1
+                sh.transitions += len(arg)
+                sh.nontrivial += 1
+                sh.count("dipredef-" + what)
+                if bad is not None:
+                    _report(sh, bad)
+    elif kind == "redef":
+        fam, seq = arg
+        modes = [(("open", None, "with"), ("end",)), (("open", None, "with"), ("raise", 1)),
+                 (("open", None, "explicit"), ("end",))]
+        for ctx in ((), (("open", "LM", "with"),)):
+            for ms in itertools.product(modes, repeat=3):
+                h = ctx
+                for v, (o_, x_) in zip(seq, ms):
+                    h = h + (("open", REDEF[fam][v], o_[2]), x_)
+                _exec(h, sh, tier, "redef", seen)
+                sh.count("redef")
+    elif kind == "overlap":
+        n, first = arg
+        orders = _overlap_orders(n)
+        for t in _overlap_tuples(n):
+            if first is not None and t[0] != first:
+                continue
+            for ev in orders:
+                for ctx in ("top", "inQ"):
+                    _between_cases(sh)
+                    what, bad = _overlap_case(t, ev, ctx)
+                    sh.evaluations += 1
+                    sh.traces += 1
+                    sh.transitions += len(ev)
+                    sh.nontrivial += 0 if _is_lifo(ev) else 1
+                    sh.count("overlap-%s-%s" % ("lifo" if _is_lifo(ev) else "non-lifo", what))
+                    if bad is not None:
+                        _report(sh, bad)
     elif kind == "dipint":
         for ctx in ("top", "inA"):
             for site in DIPINT:
@@ -1263,9 +1599,14 @@ def replay(rec):
     c = rec["case"]
     if c.get("route") == "dip":
         return _dip_case(c["ctx"], list(c["lines"]), c.get("split", 0))[1]
+    if c.get("route") == "overlap":
+        return _overlap_case(tuple(c["sets"]), [tuple(e) for e in c["events"]], c["ctx"])[1]
+    if c.get("route") == "dipredef":
+        return _dipredef_case(tuple(c["seq"]), c["body"], c["ctx"])[1]
     if c.get("route") == "dipint":
         return _dipint_case(c["site"], c["exc"], c["ctx"])[1]
-    return Run(c["history"]).go()
+    hist = [tuple(op) for op in c["history"]]
+    return Run(hist, values=any(op[0] == "open" and op[1] in REDEF_ALT for op in hist)).go()
 
 
 def finish(total, tier, seed):
@@ -1274,7 +1615,8 @@ def finish(total, tier, seed):
     h = total.hist
     need = ["last:opened", "last:exit-normal", "last:unwound", "last:construction-failed", "last:dip-ok",
             "last:dip-err", "dip-top-ok", "dip-top-err", "dip-inLM-err", "dip-split-ok",
-            "last:construction-interrupted", "last:unwound-by-interrupt"]
+            "last:construction-interrupted", "last:unwound-by-interrupt", "overlap-non-lifo-all-closed",
+            "overlap-lifo-all-closed", "dipredef-ok", "redef", "last:dropped-1"]
     need += ["dipint-%s-interrupted" % site for site in DIPINT]
     missing = [k for k in need if not h.get(k)]
     if missing:
